@@ -1,6 +1,7 @@
 import Postcard.Props.C05
 import Postcard.Props.C05Framed
 import Postcard.Props.C05Collect
+import Postcard.Props.C05PostError
 -- property theorems of C05: every one must depend only on propext / Classical.choice / Quot.sound
 #print axioms Postcard.slice_feed_fits
 #print axioms Postcard.slice_feed_overflow
@@ -35,3 +36,6 @@ import Postcard.Props.C05Collect
 #print axioms Postcard.collect_hvec_within_capacity
 #print axioms Postcard.collect_never_ok_truncated
 #print axioms Postcard.collect_pieces_irrelevant
+#print axioms Postcard.slice_call_inv
+#print axioms Postcard.slice_any_history
+#print axioms Postcard.hvec_any_history
